@@ -85,11 +85,28 @@ func runLzCase(r *Result, dp *DriverPool, prop string, cs lzCase, plain bool) {
 		viol("counterexample", fmt.Sprintf("write-error matcher=%d: %s", c.Matcher, e), "Write/Close of a valid configuration failed: "+e)
 		return
 	}
+	if !plain {
+		var ws []string
+		off := 0
+		for _, k := range cs.Parts {
+			ws = append(ws, hxe(data[off:off+k]))
+			off += k
+		}
+		runW1Model(r, dp, w1Case{Op: "writer1-history", Cfg: c, Writes: ws})
+	}
 	g := goLzmaRead(w.Out, 0, 60*time.Second)
 	goOK := g.Err == "EOF" && !g.OpenErr && bytes.Equal(g.Out, data)
 	if !goOK && prop == "C06" {
 		viol("counterexample", fmt.Sprintf("roundtrip matcher=%d sizeInHeader=%v marker=%v: reader %s %s", c.Matcher, c.SizeInHeader, c.EOSMarker, g.Err, g.Msg),
 			fmt.Sprintf("library reader returned %d bytes (want %d), status %s %s %s", len(g.Out), len(data), g.Err, g.Msg, g.Panic))
+	}
+	// the reader must honour the dictionary size of the header whatever (smaller) capacity the caller configures
+	if goOK && prop == "C06" && c.DictCap > 4096 {
+		g2 := goLzmaRead(w.Out, 4096, 60*time.Second)
+		if !(g2.Err == "EOF" && !g2.OpenErr && bytes.Equal(g2.Out, data)) {
+			viol("counterexample", fmt.Sprintf("roundtrip with ReaderConfig.DictCap=4096 matcher=%d dict=%d: reader %s %s", c.Matcher, c.DictCap, g2.Err, g2.Msg),
+				fmt.Sprintf("library reader configured with DictCap 4096 returned %d bytes (want %d), status %s %s %s; the header declares %d", len(g2.Out), len(data), g2.Err, g2.Msg, g2.Panic, c.DictCap))
+		}
 	}
 	rep, err := dp.Ask(fmt.Sprintf("lzmaread %d %s", 0, hxe(w.Out)))
 	if err != nil {
@@ -144,11 +161,34 @@ func runLzCase(r *Result, dp *DriverPool, prop string, cs lzCase, plain bool) {
 }
 
 // sizeContract: with an explicit size the writer accepts exactly that many bytes.
-func sizeContract(r *Result, rng *rand.Rand, n int) {
+func sizeContract(r *Result, dp *DriverPool, rng *rand.Rand, n int) {
 	for i := 0; i < n; i++ {
 		size := []int{0, 1, 5, 273, 1000, 5000}[rng.Intn(6)]
 		_, data := pickData(rng, 8000)
 		c := lzCfg{LC: 3, PB: 2, DictCap: 4096, BufSize: 4096, SizeInHeader: true, Size: int64(size), EOSMarker: rng.Intn(2) == 0, Matcher: rng.Intn(2)}
+		if rng.Intn(3) == 0 {
+			c.SizeInHeader = false // fill() turns a positive size into SizeInHeader
+		}
+		{
+			// the same history (short, exact or surplus, over 1..3 calls) through the model of the classic writer
+			var ws []string
+			off := 0
+			for off < len(data) {
+				k := 1 + rng.Intn(len(data)-off)
+				if rng.Intn(2) == 0 {
+					k = len(data) - off
+				}
+				ws = append(ws, hxe(data[off:off+k]))
+				off += k
+			}
+			if rng.Intn(4) == 0 {
+				ws = append(ws, "-")
+			}
+			runW1Model(r, dp, w1Case{Op: "writer1-history", Cfg: c, Writes: ws})
+		}
+		if !c.SizeInHeader && size == 0 {
+			continue // no explicit size configured
+		}
 		var buf bytes.Buffer
 		w, err := c.config().NewWriter(&buf)
 		if err != nil {
@@ -256,7 +296,7 @@ func checkLzmaWriter(prop string) func(a *checkArgs, r *Result) error {
 			return err
 		}
 		if prop == "C06" {
-			sizeContract(r, rng, 120)
+			sizeContract(r, dp, rng, 120)
 		} else {
 			if err := c07Reader(a, r, dp, rng); err != nil {
 				return err
